@@ -261,6 +261,59 @@ def run(ck: Check):
             ck.disagree("a half-precision Walsh convolution compiles to a different function than its eval forward",
                         {"dtype": str(dt), "row": nets.all_rows(4)[bad]}, expected=yeh[bad], observed=ych[bad],
                         signature={"layer": "conv", "what": "compiled-half"})
+    # ---- half-precision DENSE Walsh layers: reported gate id = truth table of the eval forward = what the compiler uses.  Vectors in
+    # which one coefficient nearly cancels the others at a corner (the exact form is 0 or a few ulps): accumulating the form term by
+    # term in 16 bits gives another sign than the forward pass
+    from torchlogix.layers import LogicDense as _LD
+    for dt in (torch.bfloat16, torch.float16):
+        torch.manual_seed(ck.seed + 13)
+        n_h = 96
+        dh = _LD(2, n_h, device="cpu", parametrization="walsh", weight_init="random")
+        dh.indices = (torch.zeros(n_h, dtype=torch.long), torch.ones(n_h, dtype=torch.long))
+        with torch.no_grad():
+            h_big = 2048.0 if dt == torch.float16 else 256.0
+            h_sgn = torch.where(torch.rand(n_h) > 0.5, 1.0, -1.0)
+            h_w = torch.stack([-h_big * h_sgn, -torch.ones(n_h) * h_sgn, -torch.ones(n_h) * h_sgn, (h_big + 2) * h_sgn], dim=1)
+            # rotate which corner cancels: multiply coefficient columns by the corner's +-1 pattern
+            for h_i in range(n_h):
+                h_a, h_b = [(-1, -1), (-1, 1), (1, -1), (1, 1)][h_i % 4]
+                h_w[h_i] = h_w[h_i] * torch.tensor([1.0, h_a, h_b, h_a * h_b])
+            h_w[n_h // 2:] += torch.randn(n_h - n_h // 2, 4) * 0.5
+            dh.weight.copy_(h_w)
+        dh = dh.to(dt)
+        dh.eval()
+        h_xs = torch.tensor(nets.all_rows(2), dtype=torch.float32)
+        ck.case({"layer": "dense", "dtype": str(dt), "half_precision": True}, nontrivial=True, kind="half-precision")
+        try:
+            with torch.no_grad():
+                h_ye = dh(h_xs.to(dt)).float().round().int()                 # (4, n): rows AB = 00, 01, 10, 11
+            h_tab = (8 * h_ye[0] + 4 * h_ye[1] + 2 * h_ye[2] + h_ye[3]).tolist()
+            h_rep = [int(v) for v in dh.get_gate_ids().tolist()]
+        except Exception as e:
+            ck.count("half_precision_rejected")
+            continue
+        ck.count("half_precision_checks")
+        h_badn = [h_i for h_i in range(n_h) if h_rep[h_i] != h_tab[h_i]]
+        if h_badn:
+            h_i = h_badn[0]
+            ck.disagree("a half-precision Walsh dense layer reports another gate id than the function its eval forward computes",
+                        {"dtype": str(dt), "coefficients": [float(v) for v in dh.weight[h_i].float()], "neurons": len(h_badn)}, expected=h_tab[h_i],
+                        observed=h_rep[h_i], signature={"layer": "dense", "what": "gate-id-half"})
+        try:
+            h_mh = torch.nn.Sequential(dh, GroupSum(n_h, device="cpu"))
+            h_neth = compiled.build(h_mh, 8)
+            compiled.compile_net(h_neth)
+            h_ych = [[int(v) for v in r] for r in compiled.forward(h_neth, h_xs.bool().tolist())]
+            with torch.no_grad():
+                h_yeh = h_mh(h_xs.to(dt)).float().round().int().tolist()
+        except Exception as e:
+            ck.count("half_precision_rejected")
+            continue
+        if h_ych != h_yeh:
+            h_bad = next(h_i for h_i in range(4) if h_ych[h_i] != h_yeh[h_i])
+            ck.disagree("a half-precision Walsh dense layer compiles to a different function than its eval forward",
+                        {"dtype": str(dt), "row": nets.all_rows(2)[h_bad]}, expected=h_yeh[h_bad], observed=h_ych[h_bad],
+                        signature={"layer": "dense", "what": "compiled-half"})
     # ---- parameter-update protocols (reported id / eval / compiled follow the CURRENT coefficients)
     protocols.dense_protocol(ck, "walsh", "")
     protocols.conv_protocol(ck, "walsh", "")
